@@ -266,7 +266,7 @@ def run_c10(S, spec, RP2ValueError):
     gls = cdu.gain_loss_set
     for g in gls:
         lot = g.acquired_lot
-        su_gl.append({"id": (g.taxable_event.row, lot.row if lot is not None else None), "long": bool(g.is_long_term_capital_gains()), "num": None, "fig": (S.ex(g.crypto_amount), S.ex(g.taxable_event_fiat_amount_with_fee_fraction), S.ex(g.fiat_cost_basis), S.ex(g.fiat_gain))})
+        su_gl.append({"id": (g.taxable_event.row, lot.row if lot is not None else None), "long": bool(g.is_long_term_capital_gains()), "num": (gls.get_taxable_event_fraction(g), gls.get_taxable_event_number_of_fractions(g.taxable_event), gls.get_acquired_lot_fraction(g) if lot is not None else None, gls.get_acquired_lot_number_of_fractions(lot) if lot is not None else None), "fig": (S.ex(g.crypto_amount), S.ex(g.taxable_event_fiat_amount_with_fee_fraction), S.ex(g.fiat_cost_basis), S.ex(g.fiat_gain))})
     # shown transactions = exactly those whose own date lies in the window, in the unfiltered order
     for k in ("in", "out", "intra", "taxable"):
         want = [r for r in su[k] if win[row2slot[r]]]
@@ -290,6 +290,14 @@ def run_c10(S, spec, RP2ValueError):
     # and the to_date-only run shows the unfiltered entries dated up to the to_date, with identical figures
     upto = [g for g in su_gl if not txs[row2slot[g["id"][0]]].timestamp.date() > to_date]
     same_gl(S, "C10", "todate", st["gl"], upto, numbering=False)
+    # fraction counts reflect the history up to the to_date: an event dated up to it keeps all its fractions; a lot counts
+    # only the fractions taken by events dated up to it, numbered in the unfiltered order
+    for g, u in zip(st["gl"], upto):
+        want_num = (u["num"][0], u["num"][1], None, None)
+        if u["id"][1] is not None:
+            mine = sorted(x["num"][2] for x in upto if x["id"][1] == u["id"][1])
+            want_num = (u["num"][0], u["num"][1], mine.index(u["num"][2]), len(mine))
+        S.expect(g["num"] == want_num, "C10", "numbering-upto", "fraction %s is numbered %s under the to_date, history up to it gives %s" % (g["id"], g["num"], want_num))
     S.observe("shown", [g["id"] for g in sf["gl"]])
     S.observe("figures", [g["fig"] for g in sf["gl"]])
     S.note("shown-fractions", len(sf["gl"]))
